@@ -23,7 +23,7 @@ class Agreement(PipelineBase):
         if small:
             self.name='C07.threshold_agreement_%dlinks_small'%nlinks
             self.hash_order='fixed'      # insertion order only here (order dependence is C13's subject; 3-4 entry maps under every permutation cost 10^5 paths)
-        self.bounds={'links':nlinks,'threshold':'any u32','materials':'per link any subset of {a,b}, one free digest byte per entry; b recorded under sha256 by the first link and under sha256, sha512 or both by the others','products':'per link {} or {a} (a is also a material path), free digest byte',
+        self.bounds={'links':nlinks,'threshold':'any u32','materials':'per link any subset of {a,b}, one free digest byte per entry; the second link may record a as ./a; b recorded under sha256 by the first link and under sha256, sha512 or both by the others','products':'per link {} or {a} (a is also a material path), free digest byte',
                      'signature_validity':'link 0 valid; other links free (intact/over/made_by)','hash_map_iteration':'every permutation'}
         self.witnesses=['ok_thr2_agree','err_disagree','ok_thr1_disagree']
     def mk_args(self,run):
@@ -34,7 +34,9 @@ class Agreement(PipelineBase):
             mats={}
             for p in (('a',) if self.small else ('a','b')):
                 if run.pick(2,'m%d%s'%(i,p)):
-                    mats[p]=[z3.BitVec('dm_%d_%s'%(i,p),8)]
+                    # the second link may spell the path differently (./a): recorded paths are compared as recorded, not after normalisation
+                    if p=='a' and i==1 and not self.small and not self.plain and run.pick(2,'spelling%d'%i): p='./a'
+                    mats[p]=[z3.BitVec('dm_%d_%s'%(i,p.replace('./','dot_')),8)]
                     if p=='b' and i>=1 and not self.plain:      # the digests of b may be recorded under sha256, sha512 or both: the algorithm set is part of what must agree
                         al=run.pick(3,'alg%d'%i)
                         if al: mats[p]={'sha512':[z3.BitVec('dm5_%d_%s'%(i,p),8)]} if al==1 else {'sha256':mats[p],'sha512':[z3.BitVec('dm5_%d_%s'%(i,p),8)]}
